@@ -42,14 +42,19 @@ pub mod verif {
         LOADS.fetch_add(1, Ordering::SeqCst);
     }
 
-    /// Counts one clock reading and returns the start instant moved back by the current skew,
-    /// so that `start.elapsed()` reads `SKEW_MS` later.
-    pub fn clock_read(start: std::time::Instant) -> std::time::Instant {
+    /// An `Instant` whose `elapsed()` reads `SKEW_MS` milliseconds later than the real clock.
+    pub struct SkewedInstant(std::time::Instant, u64);
+    impl SkewedInstant {
+        pub fn elapsed(&self) -> std::time::Duration {
+            self.0.elapsed() + std::time::Duration::from_millis(self.1)
+        }
+    }
+
+    /// Counts one clock reading and wraps the start instant so that the reading made from it
+    /// includes the current skew.
+    pub fn clock_read(start: std::time::Instant) -> SkewedInstant {
         READS.fetch_add(1, Ordering::SeqCst);
-        let skew = SKEW_MS.load(Ordering::SeqCst);
-        start
-            .checked_sub(std::time::Duration::from_millis(skew))
-            .unwrap_or(start)
+        SkewedInstant(start, SKEW_MS.load(Ordering::SeqCst))
     }
 
     pub fn observe(key: u64, entry: &TTEntry, nodes: u64, budget: Option<u64>, running: bool) {
